@@ -1427,7 +1427,7 @@ Error query_rw_info(Arch arch, const BaseInst& inst, const Operand_* operands, s
             rw_zero_extend_avx_vec(out->_operands[0], operands[0].as<Vec>());
           }
 
-          return Error::kOk;
+          return rw_handle_avx512(inst, common_info, out);
         }
 
         if (operands[0].is_mem() && operands[1].is_reg()) {
